@@ -297,6 +297,11 @@ func (c *checker) query(q *Query, outer []cscope) ([]ctype, error) {
 				if t == tAvg {
 					return nil, fmt.Errorf("aggregate over AVG")
 				}
+				if len(outer) > 0 && escapesE(a.E, 1) && !innerRef(a.E) {
+					// SQL: an aggregate whose argument has only outer references belongs to the OUTER block
+					// (and is illegal in its WHERE); the definition would evaluate it in the inner block
+					return nil, fmt.Errorf("aggregate over outer references only")
+				}
 				switch a.F {
 				case "count*", "count", "countd":
 					row = append(row, tInt)
